@@ -1852,6 +1852,8 @@ def r2_groups(rng, gid0, inputs, dicts, tiny, quick):
 
 KEY_STABLEIN = "stablein-deferral-end-skips-stability-check"
 KEY_COPYOPEN = "copyCCtx-into-open-stream-keeps-stage"
+KEY_MTSET = "mt-jobtable-full-pending-section-gets-new-params"
+R3_MTSET = False        # enabled once the lead has recorded / repaired the finding (second symptom of mt-jobtable-full-last-job)
 
 
 def r3_groups(rng, gid0, inputs, quick):
@@ -1886,6 +1888,11 @@ def r3_groups(rng, gid0, inputs, quick):
     for nb, we in [(600000, 0), (600000, 1), (200000, 1)]:
         L.append("X copyopen %d %d" % (nb, we))
         n += 1
+    if R3_MTSET:
+        # (3) nbWorkers=1 (4-entry jobs table), five e_continue calls of exactly one section, an accepted mid-frame
+        # ZSTD_CCtx_setParameter(compressionLevel), e_end: huge output chunks vs 1 byte per call
+        L.append("X mtset 1 5 300000 9 1")
+        n += 1
     g.r3_expected = n
     g.variants = []
     return [g]
@@ -1914,6 +1921,17 @@ def judge_r3(g, res, report, ctx):
                                                                  "ZSTD_CCtx_reset(session_only) and another buffer"][mode],
                                                                 "stabilityCondition_notRespected" if mode in (0, 1) else "the %d input bytes back" % (n2 if mode == 3 else n1 + n2),
                                                                 e2, regen), line=l), key=KEY_STABLEIN if mode in (0, 1) else None)
+        elif t[1] == "mtset":
+            nbw, nsec, tail, lvl, small = (int(x) for x in t[2:7])
+            sa, ha, da, seta, sb, hb, db, setb = int(t[7]), t[8], int(t[9]), int(t[10]), int(t[11]), t[12], int(t[13]), int(t[14])
+            ok = (sa, ha) == (sb, hb)
+            ctx.count(("r3", "mtset", nbw, ok), nontrivial=True)
+            if not (da and db and seta and setb):
+                report("rt", g, dict(what="multithreaded frame with a mid-frame parameter update: a frame does not decode / the update was refused", line=l))
+            elif not ok:
+                report("differ", g, dict(what="nbWorkers=%d, jobSize 512 KiB, level 1: %d x e_continue(524288 B), ZSTD_CCtx_setParameter(compressionLevel, %d), "
+                                              "e_end(%d B): %d bytes with a huge output buffer, %d bytes with %d byte(s) of output room per call" % (
+                                                  nbw, nsec, lvl, tail, sa, sb, small), line=l), key=KEY_MTSET)
         elif t[1] == "copyopen":
             nb, we, e0, st1, e1, st2, e2, e3, d = (int(x) for x in t[2:11])
             ok = (e0 == 0 and st1 == 1 and e1 == 0 and st2 == 0 and e2 == 0 and e3 == 0 and d == 5000)
